@@ -21,6 +21,7 @@
 
 mod model;
 mod store;
+mod wb;
 
 use model::*;
 use proptest::prelude::*;
@@ -832,6 +833,8 @@ fn prepare(w: &Workload, restrict: bool) -> (Vec<Op>, bool) {
 fn fault_variants(op: OpKind) -> Vec<Fault> {
     match op {
         OpKind::Put => vec![Fault::Fail, Fault::PartialThenFail(500)],
+        // read-side faults: the bytes come back damaged once, the stored object is intact
+        OpKind::Get => vec![Fault::Fail, Fault::CorruptGet(500), Fault::TruncateGet(500)],
         _ => vec![Fault::Fail],
     }
 }
@@ -1187,8 +1190,10 @@ fn main() {
          then (a) every crash position: the image after each call and inside each put (header/footer/quartile prefixes in quick, every byte prefix in thorough); \
          (b) a restart on every such boundary image (and on a half-written put) that executes the rest of the workload, its boundaries being crash positions again; \
          (c) every single transient failure (each call failing once; puts also failing after a half-written object) with every later call boundary of that run as a crash position; \
-         (d) thorough: every pair of failures. non-trivial = the fault-free run has >= 2 successful flushes (so positions between a segment put and the manifest rename, \
-         and inside compaction when it ran, are enumerated); distinct by (store-call sequence, number of updates)",
+         (d) thorough: every pair of failures; every get additionally returns once a corrupted (one byte ^0xFF at the middle) and once a truncated (half) object with the stored object intact. \
+         write_buffer: generated push/flush sequences on a shared Arc<WriteBuffer> where 0..3 pushes arrive while flush() is suspended in front of its put; every flush's put succeeding / failing / failing after half the object (thorough: pairs). \
+         non-trivial = the fault-free run has >= 2 successful flushes (so positions between a segment put and the manifest rename, \
+         and inside compaction when it ran, are enumerated), distinct by (store-call sequence, number of updates); write_buffer: some flush failed while updates had been pushed during its store call, distinct by the op list",
         &args,
     );
     s.assume("fault model: a store call completes, or fails with an error (a put possibly after storing a prefix of its payload), or the process dies during it (a put leaves a prefix under its key — also over an existing object; rename and delete are atomic). A put that RETURNS Ok has stored all its bytes: 'short write reported as success' (modelled by the in-tree SimulatedObjectStore) is outside the domain");
@@ -1228,9 +1233,25 @@ fn main() {
     );
     s.run_cases(
         "workloads",
-        s.scale(2_000, 40_000),
+        s.scale(1_500, 30_000),
         || workload(if s.thorough() { 24 } else { 26 }),
         check_workload,
+    );
+    s.describe_check(
+        "write_buffer",
+        "WriteBuffer on a shared Arc: generated push / flush sequences where 0..3 pushes arrive while flush() is suspended in front of its put (gated store); every flush's put succeeding / failing / failing after half the object (thorough: pairs); pending_count after each flush, read-back of every successfully written segment, every accepted update persisted after a closing flush",
+    );
+    s.run_cases(
+        "write_buffer",
+        s.scale(10_000, 1_000_000),
+        || {
+            let op = prop_oneof![
+                3 => delta_spec().prop_map(wb::WbOp::Push),
+                2 => proptest::collection::vec(delta_spec(), 0..4).prop_map(|during| wb::WbOp::Flush { during }),
+            ];
+            proptest::collection::vec(op, 2..10).prop_map(|ops| wb::WbCase { ops })
+        },
+        wb::check,
     );
     s.finish();
 }
